@@ -27,6 +27,13 @@ The translation scheme (design.d/PATHGEN.md has the full table):
 * ``try: B except X: H`` -> ``match [B] with | .err .X => [H] | ...`` (``H`` must end in ``raise`` /
   ``return``; no ``return`` inside ``B``).
 
+Extensions used by the other module translators (puregen.py, permgen.py, modegen.py; design.d/GEN2.md): joined
+``if`` in front of a loop, nested ``while``, two-sided slices, ``%`` / ``"".join`` / multi-character ``split``,
+comprehensions (``List.map`` / ``pyMapM`` / filter+map), ``any(...)``, ``enumerate`` / ``range``, ``re.escape`` /
+``re.compile`` / ``pattern.match`` (FsModel/PyRe.lean), the LRU-cache idiom (translated away), ``lambda`` /
+``partial`` / functions as values, ``Optional`` parameters with ``is None`` narrowing, classes with one set-valued
+field (FsModel/PySet.lean), bit operations, ``l[i] = v``, file objects with ``iter(callable, None)`` loops.
+
 Anything else is REFUSED: ``Refuse`` names the function, the AST node and the line.  Run as a script
 the translator then exits non-zero; run from the dispatcher (``generate``) it still writes the
 generated file - without the refused definition and with the refusal recorded in the file and in
@@ -55,6 +62,16 @@ KNOWN_REGEX_FLAGS = ("", "re.UNICODE")
 WHILE_FUEL = {
     "recursepath": ["len(path) + 1"],
     "isparent": ["len(bits1) + 1"],
+    # index-driven scanners: every round of the outer loop advances `i`, every round of the inner one `j`
+    "wildcard._translate": ["len(pattern) + 1", "len(pattern) + 1"],
+    "glob._translate": ["len(pattern) + 1", "len(pattern) + 1"],
+}
+
+# termination hints for `for x in iter(callable, None)` loops, as Lean text over the variables in scope (the bound
+# depends on the state of an opaque object, which no Python expression of the subset can name).  Untrusted, like
+# WHILE_FUEL: exhausted fuel is Err.Leak.
+FOR_ITER_FUEL = {
+    "tools.copy_file_data": ["src_file.data.length + 1"],
 }
 
 # exception classes that exist in FsModel.Basic.Err
@@ -105,6 +122,23 @@ class EffectInCond(Exception):
 # ----------------------------------------------------------------------------------- types
 
 STR, BOOL, NAT, INT, UNIT, CHARSET = "str", "bool", "nat", "int", "unit", "charset"
+REGEX = "regex"          # a compiled pattern object (re.compile(...)): Fs.Regex.Regex
+NONE = "none"            # the type of the literal None inside a conditional expression (-> Option)
+
+
+BYTES = "bytes"          # a bytes value (what read() returns): Fs.Bytes
+READER = "reader"        # a file object open for reading: Fs.File.Reader (remaining data + short-read oracle)
+WRITER = "writer"        # a file object open for writing: the bytes written so far
+STRSET = ("set", STR)     # a Python set of strings; in Lean a `List Str` whose order and multiplicity are not observable
+
+
+def topt(t):
+    return ("opt", t)
+
+
+def tfn(args, ret):
+    """a callable value; in Lean always `a1 -> ... -> Res ret`"""
+    return ("fn", tuple(args), ret)
 
 
 def tlist(t):
@@ -130,6 +164,19 @@ def lean_type(t):
         return "Unit"
     if t == CHARSET:
         return "List Char"
+    if t == REGEX:
+        return "Regex.Regex"
+    if t == STRSET:
+        return "List Str"
+    if t in (BYTES, WRITER):
+        return "Bytes"
+    if t == READER:
+        return "File.Reader"
+    if isinstance(t, tuple) and t[0] == "opt":
+        return "Option %s" % (lean_type(t[1]) if " " not in lean_type(t[1]) else "(%s)" % lean_type(t[1]))
+    if isinstance(t, tuple) and t[0] == "fn":
+        r = lean_type(t[2])
+        return "(" + " → ".join([lean_type(a) for a in t[1]] + ["Res %s" % (r if " " not in r or r.startswith("(") else "(%s)" % r)]) + ")"
     if isinstance(t, tuple) and t[0] == "list":
         return "List (%s)" % lean_type(t[1]) if " " in lean_type(t[1]) else "List %s" % lean_type(t[1])
     if isinstance(t, tuple) and t[0] == "tuple":
@@ -142,6 +189,13 @@ def join_types(a, b):
         return a
     if {a, b} == {NAT, INT}:
         return INT
+    if a == NONE and b != NONE:
+        return b if isinstance(b, tuple) and b[0] == "opt" else topt(b)
+    if b == NONE and a != NONE:
+        return a if isinstance(a, tuple) and a[0] == "opt" else topt(a)
+    if isinstance(a, tuple) and isinstance(b, tuple) and a[0] == b[0] == "opt":
+        j = join_types(a[1], b[1])
+        return topt(j) if j is not None else None
     # an empty list literal has element type None until it meets a typed one
     if isinstance(a, tuple) and isinstance(b, tuple) and a[0] == b[0] == "list":
         if a[1] is None:
@@ -274,6 +328,22 @@ class LoopCtx(Ctx):
         return "(.brk %s)" % self.state_tuple
 
 
+class JoinPureCtx(PureCtx):
+    """branch of a joined `if` without effects: the value is the tuple of the assigned variables"""
+    kind = "joinpure"
+
+    def ret(self, t):
+        raise Refuse("?", None, "`return` inside a joined `if`")
+
+
+class JoinResCtx(ResCtx):
+    """branch of a joined `if` with effects: a Res of that tuple"""
+    kind = "joinres"
+
+    def ret(self, t):
+        raise Refuse("?", None, "`return` inside a joined `if`")
+
+
 class TryCtx(ResCtx):
     """body of a `try`: a Res of the tuple of the variables it assigns; no `return` inside"""
     kind = "try"
@@ -293,6 +363,7 @@ class FuncInfo:
         self.vararg = vararg          # last parameter collects *args
         self.defaults = defaults or {}  # name -> lean text
         self.is_method = is_method
+        self.self_type = STR
 
 
 class Module:
@@ -306,6 +377,11 @@ class Module:
         self.self_class = None # when translating methods: name of the class
         self.methods = {}      # method python name -> FuncInfo
         self.properties = set()
+        self.caches = set()    # module-level names bound to LRUCache(n) (the compiled-pattern caches)
+        self.self_field = None
+        self.self_type = STR   # the Lean type of an object of the class being translated (= of its one field)
+        self.class_consts = {} # class-level constant name -> (lean name, type)
+        self.ctor = None       # FuncInfo of __init__ (for `cls(...)`)
 
 
 class FnTranslator:
@@ -352,6 +428,21 @@ class FnTranslator:
             return text
         if frm == NAT and to == INT:
             return "(Int.ofNat %s)" % text
+        if frm == NONE and isinstance(to, tuple) and to[0] == "opt":
+            return "none"
+        if isinstance(to, tuple) and to[0] == "opt" and isinstance(frm, tuple) and frm[0] == "opt":
+            if frm[1] == NAT and to[1] == INT:
+                return "(Option.map Int.ofNat %s)" % text
+        if isinstance(to, tuple) and to[0] == "opt" and not (isinstance(frm, tuple) and frm[0] == "opt"):
+            return "(some %s)" % self.coerce(text, frm, to[1], node)
+        if isinstance(to, tuple) and isinstance(frm, tuple) and to[0] == frm[0] == "tuple" and len(to[1]) == len(frm[1]) \
+                and any(a != b for a, b in zip(frm[1], to[1])):
+            n = len(frm[1])
+            parts = []
+            for k, (a, b) in enumerate(zip(frm[1], to[1])):
+                proj = "%s%s" % (self.atom(text), ".2" * k + (".1" if k < n - 1 else ""))
+                parts.append(self.coerce(proj, a, b, node))
+            return "(" + ", ".join(parts) + ")"
         j = join_types(frm, to)
         if j == to:
             return text
@@ -365,8 +456,9 @@ class FnTranslator:
             self.refuse(f, "keyword-only / ** parameters")
         names = [x.arg for x in a.args]
         if self.self_param:
-            if not names or names[0] != "self":
-                self.refuse(f, "method without self")
+            first = "cls" if self.self_param == "classmethod" else "self"
+            if not names or names[0] != first:
+                self.refuse(f, "method without %s" % first)
             names = names[1:]
         if not f.type_comment:
             self.refuse(f, "no `# type:` comment (parameter types unknown)")
@@ -374,7 +466,18 @@ class FnTranslator:
             ft = ast.parse(f.type_comment, mode="func_type")
         except SyntaxError:
             self.refuse(f, "unparsable type comment %r" % f.type_comment)
-        ptypes = [self.pytype(t) for t in ft.argtypes]
+        if len(ft.argtypes) == 1 and isinstance(ft.argtypes[0], ast.Constant) and ft.argtypes[0].value is Ellipsis:
+            # `# type: (...) -> T` with one `# type:` comment per parameter
+            ptypes = []
+            for x in a.args[(1 if self.self_param else 0):]:
+                if not x.type_comment:
+                    self.refuse(f, "parameter `%s` has no type comment" % x.arg)
+                try:
+                    ptypes.append(self.pytype(ast.parse(x.type_comment, mode="eval").body))
+                except SyntaxError:
+                    self.refuse(f, "unparsable type comment %r" % x.type_comment)
+        else:
+            ptypes = [self.pytype(t) for t in ft.argtypes]
         allnames = names + ([a.vararg.arg] if a.vararg else [])
         if len(ptypes) != len(allnames):
             self.refuse(f, "type comment has %d parameter types for %d parameters" % (len(ptypes), len(allnames)))
@@ -396,6 +499,9 @@ class FnTranslator:
                 defaults[n] = "true" if d.value else "false"
             elif isinstance(d, ast.Constant) and isinstance(d.value, str):
                 defaults[n] = lean_str(d.value)
+            elif isinstance(d, ast.Constant) and d.value is None and isinstance(dict(params).get(n), tuple) \
+                    and dict(params)[n][0] == "opt":
+                defaults[n] = "none"
             elif self.is_charset_ctor(d):
                 const_params[n] = d
             else:
@@ -409,19 +515,32 @@ class FnTranslator:
 
     def pytype(self, t):
         if isinstance(t, ast.Name):
-            if t.id in ("Text", "str"):
+            if t.id in ("Text", "str", "unicode"):
                 return STR
             if t.id == "bool":
                 return BOOL
             if t.id == "int":
                 return INT
+            if t.id == "IO":
+                role = getattr(self.m, "io_roles", {}).get(self.f.name, [])
+                k = self._io_seen = getattr(self, "_io_seen", 0) + 1
+                if k <= len(role):
+                    return role[k - 1]
+                self.refuse(t, "a file-object parameter whose role (reader / writer) the translator was not told")
             if t.id == "object":
                 return STR      # `__contains__(self, character: object)` asserts isinstance(character, Text)
+            if self.m.self_class is not None and t.id == self.m.self_class and self.m.self_type != STR:
+                return self.m.self_type
         if isinstance(t, ast.Constant) and t.value is None:
             return UNIT
         if isinstance(t, ast.Subscript) and isinstance(t.value, ast.Name):
-            if t.value.id == "List":
+            if t.value.id in ("List", "Iterable"):
                 return tlist(self.pytype(t.slice))
+            if t.value.id == "Optional":
+                return topt(self.pytype(t.slice))
+            if (t.value.id == "Callable" and isinstance(t.slice, ast.Tuple) and len(t.slice.elts) == 2
+                    and isinstance(t.slice.elts[0], ast.List)):
+                return tfn([self.pytype(x) for x in t.slice.elts[0].elts], self.pytype(t.slice.elts[1]))
             if t.value.id == "Tuple" and isinstance(t.slice, ast.Tuple):
                 return ttuple(*[self.pytype(x) for x in t.slice.elts])
             if t.value.id == "Union":
@@ -433,7 +552,19 @@ class FnTranslator:
     # -- the passes
     def translate(self):
         params, ret, vararg, defaults, const_params = self.signature()
+        self.mutates = self.self_param in ("method", "init", True) and self.m.self_type != STR and self.mutates_self()
+        if self.self_param == "init" or (self.mutates and ret == UNIT):
+            ret = self.m.self_type          # a mutator / the constructor returns the (new) object
+            self.returns_self = True
+        else:
+            self.returns_self = False
+        self.mut_params = [n for n, t in params if t in (READER, WRITER)]
+        if self.mut_params:
+            if ret != UNIT:
+                self.refuse(self.f, "a function over file objects that also returns a value")
+            ret = ttuple(*[dict(params)[n] for n in self.mut_params]) if len(self.mut_params) > 1 else dict(params)[self.mut_params[0]]
         self.ret_type = ret
+        self.field_aliases = set()
         body = list(self.f.body)
         if body and isinstance(body[0], ast.Expr) and isinstance(body[0].value, ast.Constant) and isinstance(body[0].value.value, str):
             body = body[1:]
@@ -452,8 +583,9 @@ class FnTranslator:
                     self.binds = []
                     self.aliases = {}
                     env = {}
-                    if self.self_param:
-                        env["self"] = STR
+                    self.field_aliases = set()
+                    if self.self_param and self.self_param not in ("classmethod", "init"):
+                        env["self"] = self.m.self_type
                     for n, t in real_params:
                         env[n] = t
                         self.vartypes.setdefault(n, t)
@@ -477,8 +609,35 @@ class FnTranslator:
         raises, text = result
         return FuncInfo(self.f.name, None, real_params, ret, raises, vararg, defaults), text
 
+    SET_MUTATORS = ("update", "add", "difference_update", "discard")
+
+    def is_field(self, node):
+        """`self.<field>` or a local alias of it"""
+        if isinstance(node, ast.Attribute) and isinstance(node.value, ast.Name) and node.value.id == "self" \
+                and node.attr == self.m.self_field:
+            return True
+        return isinstance(node, ast.Name) and node.id in getattr(self, "field_aliases", ())
+
+    def mutates_self(self):
+        for n in ast.walk(self.f):
+            if isinstance(n, (ast.Assign, ast.AugAssign)):
+                tgts = n.targets if isinstance(n, ast.Assign) else [n.target]
+                if any(isinstance(t, ast.Attribute) and isinstance(t.value, ast.Name) and t.value.id == "self" for t in tgts):
+                    return True
+            if isinstance(n, ast.Call) and isinstance(n.func, ast.Attribute) and n.func.attr in self.SET_MUTATORS \
+                    and isinstance(n.func.value, ast.Attribute) and isinstance(n.func.value.value, ast.Name) \
+                    and n.func.value.value.id == "self":
+                return True
+        return False
+
     def fall_off_end(self, ctx):
         def k(env):
+            if getattr(self, "mut_params", None):
+                return ctx.ret("(" + ", ".join(lean_ident(n) for n in self.mut_params) + ")")
+            if getattr(self, "returns_self", False):
+                if "self" not in env:
+                    self.refuse(self.f, "the object's field is not assigned on every path")
+                return ctx.ret("self")
             if self.ret_type == UNIT:
                 return ctx.ret("()")
             self.refuse(self.f, "control can reach the end of the function without `return`")
@@ -490,7 +649,7 @@ class FnTranslator:
         alias_nodes = [n for n in ast.walk(mod)
                        if isinstance(n, ast.Assign) and len(n.targets) == 1 and isinstance(n.targets[0], ast.Name)
                        and isinstance(n.value, ast.Attribute) and isinstance(n.value.value, ast.Name)
-                       and n.value.attr in ("find", "append", "pop")]
+                       and n.value.attr in ("find", "append", "pop", "read", "write")]
         for an in alias_nodes:
             obj = an.value.value.id
             for n in ast.walk(mod):
@@ -506,8 +665,11 @@ class FnTranslator:
         """wrap `body` with the effect binds pushed since `mark` (innermost last)"""
         new = self.binds[mark:]
         del self.binds[mark:]
-        for pat, res in reversed(new):
-            body = ctx.bind(res, pat, body)
+        for b in reversed(new):
+            if len(b) == 3 and b[2] == "let":
+                body = "(match %s with\n  | %s =>\n%s)" % (b[1], b[0], ind(body, 4))
+            else:
+                body = ctx.bind(b[1], b[0], body)
         return body
 
     def S(self, stmts, env, ctx, k):
@@ -522,6 +684,7 @@ class FnTranslator:
         h = getattr(self, "S_" + type(st).__name__, None)
         if h is None:
             self.refuse(st, "unsupported statement")
+        self.cur_rest = rest
         try:
             return h(st, env, ctx, cont)
         except EffectInCond:
@@ -535,6 +698,8 @@ class FnTranslator:
         if isinstance(ctx, TryCtx):
             self.refuse(st, "`return` inside a `try` body")
         mark = len(self.binds)
+        if st.value is None and getattr(self, "returns_self", False) and "self" in env:
+            return ctx.ret("self")
         if st.value is None:
             if self.ret_type != UNIT:
                 self.refuse(st, "bare `return` in a function returning a value")
@@ -607,6 +772,33 @@ class FnTranslator:
             if v.args:
                 self.refuse(st, "pop with an argument")
             return ctx.bind("pyPop %s" % lean_ident(obj), "(%s, _)" % lean_ident(obj), cont(env))
+        wcall = v
+        if isinstance(v.func, ast.Name) and v.func.id in self.aliases and self.aliases[v.func.id][1] == "write":
+            wcall = ast.Call(func=ast.Attribute(value=ast.Name(id=self.aliases[v.func.id][0], ctx=ast.Load()), attr="write",
+                                                ctx=ast.Load()), args=v.args, keywords=v.keywords)
+        if isinstance(wcall.func, ast.Attribute) and wcall.func.attr == "write" and isinstance(wcall.func.value, ast.Name) \
+                and env.get(wcall.func.value.id) == WRITER and len(wcall.args) == 1 and not wcall.keywords:
+            mark = len(self.binds)
+            a, aty = self.E(wcall.args[0], env)
+            if aty != BYTES:
+                self.refuse(st, "write() of a %s" % (aty,))
+            obj = lean_ident(wcall.func.value.id)
+            return self.wrap_binds(ctx, mark, "let %s : Bytes := (%s ++ %s)\n%s" % (obj, obj, a, cont(env)))
+        if isinstance(v.func, ast.Attribute) and v.func.attr in self.SET_MUTATORS and self.self_param \
+                and self.m.self_type == STRSET and self.is_field(v.func.value):
+            if v.keywords or len(v.args) != 1 or "self" not in env:
+                self.refuse(st, "set mutator form")
+            mark = len(self.binds)
+            meth = v.func.attr
+            if meth in ("add", "discard"):
+                a, aty = self.E(v.args[0], env)
+                if aty != STR:
+                    self.refuse(st, ".%s of a %s" % (meth, aty))
+                new = "(self ++ [%s])" % a if meth == "add" else "(pySetDiff self [%s])" % a
+            else:
+                a, aty = self.set_operand(v.args[0], env)
+                new = "(self ++ %s)" % a if meth == "update" else "(pySetDiff self %s)" % a
+            return self.wrap_binds(ctx, mark, "let self : List Str := %s\n%s" % (new, cont(env)))
         # a call evaluated for its effect (e.g. self.validate())
         mark = len(self.binds)
         text, ty = self.E(v, env)
@@ -639,21 +831,54 @@ class FnTranslator:
         self.refuse(st, "del (only `del <list>[:]`)")
 
     def S_Assign(self, st, env, ctx, cont):
+        field_t = [t for t in st.targets if isinstance(t, ast.Attribute) and isinstance(t.value, ast.Name)
+                   and t.value.id == "self" and self.self_param and t.attr == self.m.self_field]
+        if field_t:
+            # self.<field> = e   /   name = self.<field> = e  (the name is a second handle on the same set)
+            others = [t for t in st.targets if t not in field_t]
+            if len(field_t) != 1 or not all(isinstance(t, ast.Name) for t in others) or self.m.self_type == STR:
+                self.refuse(st, "assignment to the object's field")
+            mark = len(self.binds)
+            text, ty = self.E(st.value, env, expect=self.m.self_type)
+            text = self.coerce(text, ty, self.m.self_type, st)
+            for t in others:
+                if t.id in env:
+                    self.refuse(st, "`%s` already names something else" % t.id)
+                self.field_aliases.add(t.id)
+            env2 = dict(env)
+            env2["self"] = self.m.self_type
+            return self.wrap_binds(ctx, mark, "let self : %s := %s\n%s" % (lean_type(self.m.self_type), text, cont(env2)))
         if len(st.targets) != 1:
             self.refuse(st, "chained assignment")
         tgt = st.targets[0]
+        if isinstance(tgt, ast.Name) and tgt.id in getattr(self, "field_aliases", ()):
+            self.refuse(st, "`%s` is a handle on the object's field and is rebound" % tgt.id)
+        if isinstance(tgt, ast.Subscript) and isinstance(tgt.value, ast.Name) and not isinstance(tgt.slice, ast.Slice):
+            # l[i] = e
+            name = tgt.value.id
+            lty = env.get(name)
+            if not (isinstance(lty, tuple) and lty[0] == "list"):
+                self.refuse(st, "item assignment on a %s" % (lty,))
+            mark = len(self.binds)
+            i, ity = self.E(tgt.slice, env, expect=INT)
+            v, vty = self.E(st.value, env, expect=lty[1])
+            v = self.coerce(v, vty, lty[1], st)
+            body = ctx.bind("pySetItem %s %s %s" % (lean_ident(name), self.coerce(i, ity, INT, st), self.atom(v)),
+                            lean_ident(name), cont(env))
+            return self.wrap_binds(ctx, mark, body)
         if isinstance(tgt, ast.Name):
             name = tgt.id
             # alias of a bound method
             v = st.value
-            if isinstance(v, ast.Attribute) and isinstance(v.value, ast.Name) and v.value.id in env and v.attr in ("find", "append", "pop"):
+            if isinstance(v, ast.Attribute) and isinstance(v.value, ast.Name) and v.value.id in env \
+                    and v.attr in ("find", "append", "pop", "read", "write"):
                 self.aliases[name] = (v.value.id, v.attr)
                 return cont(env)
             if name == "self" or name in self.m.funcs and False:
                 self.refuse(st, "assignment to `self`")
             mark = len(self.binds)
             text, ty = self.E(v, env, expect=self.vartypes.get(name))
-            if isinstance(v, ast.Name) and isinstance(ty, tuple) and ty[0] == "list":
+            if isinstance(v, ast.Name) and isinstance(ty, tuple) and ty[0] == "list" and not self.dead_after(v.id, st):
                 self.refuse(st, "a second name for a mutable list")
             if isinstance(ty, tuple) and ty[0] == "list" and ty[1] is None and self.vartypes.get(name) in (None, ty):
                 # `x = []`: element type from the variable's other assignments (next pass)
@@ -691,9 +916,28 @@ class FnTranslator:
             self.refuse(st, "unpacking a value of type %s" % (ty,))
         self.refuse(st, "assignment target")
 
+    def dead_after(self, name, st):
+        """`name` is never used again after statement `st` (and `st` is not inside a loop): `x = name` then only
+        renames the list"""
+        for loop in ast.walk(self.f):
+            if isinstance(loop, (ast.For, ast.While)) and any(n is st for n in ast.walk(loop)):
+                return False
+        end = (st.end_lineno, st.end_col_offset)
+        for n in ast.walk(self.f):
+            if isinstance(n, ast.Name) and n.id == name and (n.lineno, n.col_offset) > end:
+                return False
+        return True
+
     def S_AugAssign(self, st, env, ctx, cont):
+        if isinstance(st.target, ast.Name) and isinstance(st.op, ast.BitOr) and st.target.id in env:
+            name = st.target.id
+            mark = len(self.binds)
+            text, ty = self.E(ast.BinOp(left=ast.Name(id=name, ctx=ast.Load()), op=ast.BitOr(), right=st.value), env)
+            env2, nty = self.declare(env, name, ty, st)
+            body = "let %s : %s := %s\n%s" % (lean_ident(name), lean_type(nty), self.coerce(text, ty, nty, st), cont(env2))
+            return self.wrap_binds(ctx, mark, body)
         if not isinstance(st.target, ast.Name) or not isinstance(st.op, ast.Add):
-            self.refuse(st, "augmented assignment (only `name += e`)")
+            self.refuse(st, "augmented assignment (only `name += e`, `name |= e`)")
         name = st.target.id
         if name not in env:
             self.refuse(st, "`%s` is not defined" % name)
@@ -707,9 +951,60 @@ class FnTranslator:
         return self.wrap_binds(ctx, mark, body)
 
     def S_If(self, st, env, ctx, cont):
+        rest = self.cur_rest
+        t = st.test
+        if (isinstance(t, ast.Compare) and len(t.ops) == 1 and isinstance(t.ops[0], (ast.Is, ast.IsNot))
+                and isinstance(t.left, ast.Name) and isinstance(t.comparators[0], ast.Constant)
+                and t.comparators[0].value is None and isinstance(env.get(t.left.id), tuple)
+                and env[t.left.id][0] == "opt"):
+            name = t.left.id
+            env_some = dict(env)
+            env_some[name] = env[name][1]
+            some_b, none_b = (st.body, st.orelse) if isinstance(t.ops[0], ast.IsNot) else (st.orelse, st.body)
+            S = self.S(some_b, env_some, ctx, cont)
+            N = self.S(none_b, dict(env), ctx, cont)
+            return "(match %s with\n  | some %s =>\n%s\n  | none =>\n%s)" % (
+                lean_ident(name), lean_ident(name), ind(S, 4), ind(N, 4))
+        if self.wants_join(st, rest):
+            return self.S_If_join(st, env, ctx, cont)
         T = self.S(st.body, dict(env), ctx, cont)
         F = self.S(st.orelse, dict(env), ctx, cont)
         return self.cond(st.test, env, ctx, T, F)
+
+    def wants_join(self, st, rest):
+        """`if` whose branches cannot leave the block and whose continuation contains a loop: the branches are
+        joined (they yield the tuple of the variables they assign) instead of duplicating the continuation"""
+        exits = (ast.Return, ast.Break, ast.Continue, ast.Raise)
+        for b in st.body + st.orelse:
+            for n in ast.walk(b):
+                if isinstance(n, exits):
+                    return False
+        return any(isinstance(n, (ast.For, ast.While)) for r in rest for n in ast.walk(r))
+
+    def S_If_join(self, st, env, ctx, cont):
+        state = [n for n in self.mutated_names(st.body + st.orelse) if n in env]
+        tup, typ, _ = self.state_texts(state, env)
+        joined = None
+        for pure in (True, False):
+            save = list(self.binds)
+            jctx = JoinPureCtx() if pure else JoinResCtx()
+            fall = (lambda e: tup) if pure else (lambda e: "(.ok %s)" % tup)
+            try:
+                T = self.S(st.body, dict(env), jctx, fall)
+                F = self.S(st.orelse, dict(env), jctx, fall)
+                joined = self.cond(st.test, env, jctx, T, F)
+                break
+            except NeedRes:
+                self.binds = save
+        env2 = self.env_with_joined(env, state)
+        # the types of the joined variables are the joined types: re-read after the branches declared them
+        tup, typ, _ = self.state_texts(state, env2)
+        K = cont(env2)
+        if pure:
+            return "(match (%s : %s) with\n  | %s =>\n%s)" % ("\n" + ind(joined, 4), typ, tup, ind(K, 4))
+        if isinstance(ctx, PureCtx):
+            raise NeedRes()
+        return ctx.bind("(%s : Res (%s))" % ("\n" + ind(joined, 4), typ), tup, K)
 
     def S_Break(self, st, env, ctx, cont):
         if not isinstance(ctx, LoopCtx):
@@ -755,6 +1050,14 @@ class FnTranslator:
                         add(c.func.value.id)
                     elif isinstance(c.func, ast.Name) and c.func.id in self.aliases and self.aliases[c.func.id][1] in ("append", "pop"):
                         add(self.aliases[c.func.id][0])
+                v.generic_visit(node)
+
+            def visit_Call(v, node):
+                fn = node.func
+                if isinstance(fn, ast.Attribute) and isinstance(fn.value, ast.Name) and fn.attr in ("read", "write"):
+                    add(fn.value.id)
+                elif isinstance(fn, ast.Name) and fn.id in self.aliases and self.aliases[fn.id][1] in ("read", "write"):
+                    add(self.aliases[fn.id][0])
                 v.generic_visit(node)
 
             def visit_For(v, node):
@@ -812,11 +1115,50 @@ class FnTranslator:
         return "(match %s with\n  | .done %s =>\n%s\n  | .ret r' => %s\n  | .exc e' => %s)" % (
             call, state_tup, ind(done, 4), ret_arm, ctx.reraise("e'"))
 
+    def S_For_iter_sentinel(self, st, env, ctx, cont):
+        """`for x in iter(lambda: e, None): body`  =  `while True: x = e; if x is None: break; body`"""
+        lam = st.iter.args[0]
+        fname = self.name.split(".")[-1]
+        hints = FOR_ITER_FUEL.get("%s.%s" % (self.m.modname, fname), [])
+        loops = sorted((n for n in ast.walk(self.f) if isinstance(n, ast.For) and self.is_iter_sentinel(n)),
+                       key=lambda n: (n.lineno, n.col_offset))
+        k = loops.index(st)
+        if k >= len(hints):
+            self.refuse(st, "`for ... in iter(callable, None)` without a termination hint (FOR_ITER_FUEL)")
+        if not isinstance(st.target, ast.Name) or st.target.id in env or reserved(st.target.id):
+            self.refuse(st.target, "loop target")
+        state = self.loop_state(st, [ast.Expr(value=lam.body)] + st.body, env, exclude=[st.target.id])
+        tup, typ, slets = self.state_texts(state, env)
+        lctx = LoopCtx(tup)
+        mark = len(self.binds)
+        v, vty = self.E(lam.body, env)
+        if not (isinstance(vty, tuple) and vty[0] == "opt"):
+            self.refuse(lam, "the callable of iter(callable, None) does not yield an optional value")
+        env_body = dict(env)
+        env_body[st.target.id] = vty[1]
+        body = self.S(st.body, env_body, lctx, lambda e: lctx.next())
+        step = "(match %s with\n  | none => %s\n  | some %s =>\n%s)" % (v, lctx.brk(), lean_ident(st.target.id), ind(body, 4))
+        step = self.wrap_binds(lctx, mark, step)
+        has_ret = self.has_return(st.body)
+        rho = lean_type(self.ret_type) if has_ret else "Empty"
+        fn = "(fun st' =>\n%s)" % ind("\n".join(slets + [step]), 4)
+        call = "pyWhile (σ := %s) (ρ := %s) (%s) %s\n%s" % (typ, rho, hints[k], tup, ind(fn, 4))
+        self.loop_locals = getattr(self, "loop_locals", set()) | self.check_locals_after(st, st.body, env, [st.target.id])
+        return self.loop_result(call, tup, ctx, self.env_with_joined(env, state), cont, has_ret)
+
+    def is_iter_sentinel(self, st):
+        it = st.iter
+        return (isinstance(it, ast.Call) and isinstance(it.func, ast.Name) and it.func.id == "iter" and len(it.args) == 2
+                and not it.keywords and isinstance(it.args[0], ast.Lambda) and not it.args[0].args.args
+                and isinstance(it.args[1], ast.Constant) and it.args[1].value is None)
+
     def S_For(self, st, env, ctx, cont):
         if isinstance(ctx, PureCtx):
             raise NeedRes()
         if st.orelse:
             self.refuse(st, "for ... else")
+        if self.is_iter_sentinel(st):
+            return self.S_For_iter_sentinel(st, env, ctx, cont)
         mark = len(self.binds)
         it_text, it_ty = self.iterable(st.iter, env)
         if not (isinstance(it_ty, tuple) and it_ty[0] == "list"):
@@ -860,11 +1202,13 @@ class FnTranslator:
             raise NeedRes()
         if st.orelse:
             self.refuse(st, "while ... else")
-        hints = WHILE_FUEL.get(self.name.split(".")[-1], [])
-        if self.while_index >= len(hints):
+        fname = self.name.split(".")[-1]
+        hints = WHILE_FUEL.get("%s.%s" % (self.m.modname, fname), WHILE_FUEL.get(fname, []))
+        whiles = sorted((n for n in ast.walk(self.f) if isinstance(n, ast.While)), key=lambda n: (n.lineno, n.col_offset))
+        windex = whiles.index(st)      # hints are per loop in source order (the translation may visit a loop twice)
+        if windex >= len(hints):
             self.refuse(st, "`while` loop without a termination hint (WHILE_FUEL)")
-        hint = hints[self.while_index]
-        self.while_index += 1
+        hint = hints[windex]
         mark = len(self.binds)
         try:
             hexpr = ast.parse(hint, mode="eval").body
@@ -892,7 +1236,44 @@ class FnTranslator:
             env2[n] = self.vartypes.get(n, env2.get(n))
         return env2
 
+    def cache_idiom(self, st):
+        """try: X = CACHE[k]  except KeyError: ...; CACHE[k] = X [= e]   for a module-level LRUCache:
+        returns the statements of the handler with the store removed (`CACHE[k] = X = e` becomes `X = e`),
+        i.e. the function *modulo the cache*, or None.  Transparency of the cache is a separate theorem (C14)."""
+        if st.finalbody or st.orelse or len(st.handlers) != 1 or len(st.body) != 1:
+            return None
+        h = st.handlers[0]
+        b = st.body[0]
+        if not (isinstance(h.type, ast.Name) and h.type.id == "KeyError" and h.name is None):
+            return None
+        if not (isinstance(b, ast.Assign) and len(b.targets) == 1 and isinstance(b.value, ast.Subscript)
+                and isinstance(b.value.value, ast.Name) and b.value.value.id in self.m.caches):
+            return None
+        cache, key, tgt = b.value.value.id, ast.unparse(b.value.slice), ast.unparse(b.targets[0])
+        if not h.body:
+            return None
+        last = h.body[-1]
+        if not (isinstance(last, ast.Assign) and isinstance(last.targets[0], ast.Subscript)
+                and isinstance(last.targets[0].value, ast.Name) and last.targets[0].value.id == cache
+                and ast.unparse(last.targets[0].slice) == key):
+            self.refuse(st, "cache idiom: the `except KeyError` block does not end by storing under the key that was looked up")
+        for n in h.body[:-1]:
+            for x in ast.walk(n):
+                if isinstance(x, ast.Name) and x.id == cache:
+                    self.refuse(st, "cache idiom: the cache is used inside the `except KeyError` block")
+        if len(last.targets) == 2 and ast.unparse(last.targets[1]) == tgt:
+            new_last = ast.Assign(targets=[last.targets[1]], value=last.value)      # CACHE[k] = X = e
+            ast.copy_location(new_last, last)
+            ast.fix_missing_locations(new_last)
+            return h.body[:-1] + [new_last]
+        if len(last.targets) == 1 and ast.unparse(last.value).strip("()") == tgt.strip("()"):
+            return h.body[:-1]                                                       # CACHE[k] = (a, b) with a, b assigned above
+        self.refuse(st, "cache idiom: what is stored is not what the lookup binds")
+
     def S_Try(self, st, env, ctx, cont):
+        modulo = self.cache_idiom(st)
+        if modulo is not None:
+            return self.S(modulo, env, ctx, cont)
         if isinstance(ctx, PureCtx):
             raise NeedRes()
         if st.finalbody or st.orelse or len(st.handlers) != 1:
@@ -962,6 +1343,10 @@ class FnTranslator:
             return text
         if ty == STR or (isinstance(ty, tuple) and ty[0] == "list"):
             return "(!%s.isEmpty)" % self.atom(text)
+        if ty in (NAT, INT):
+            return "(%s != 0)" % text
+        if ty == topt(BOOL):
+            return "(%s == some true)" % text
         self.refuse(e, "truth value of a %s" % (ty,))
 
     def atom(self, text):
@@ -972,18 +1357,29 @@ class FnTranslator:
     # -- expressions --------------------------------------------------------------------
     def iterable(self, e, env):
         if isinstance(e, ast.Call) and isinstance(e.func, ast.Name) and e.func.id == "zip" and len(e.args) == 2 and not e.keywords:
-            a, aty = self.E(e.args[0], env)
-            b, bty = self.E(e.args[1], env)
+            a, aty = self.iterable(e.args[0], env)
+            b, bty = self.iterable(e.args[1], env)
             for x, t in ((e.args[0], aty), (e.args[1], bty)):
                 if not (isinstance(t, tuple) and t[0] == "list"):
                     self.refuse(x, "zip over a value of type %s" % (t,))
             return "(List.zip %s %s)" % (a, b), tlist(ttuple(aty[1], bty[1]))
+        if isinstance(e, ast.Call) and isinstance(e.func, ast.Name) and e.func.id == "enumerate" and len(e.args) == 1 and not e.keywords:
+            a, aty = self.iterable(e.args[0], env)
+            return "(pyEnumerate %s)" % a, tlist(ttuple(NAT, aty[1]))
+        if isinstance(e, ast.Call) and isinstance(e.func, ast.Name) and e.func.id == "range" and len(e.args) in (1, 2) and not e.keywords:
+            lo, loty = ("(0 : Nat)", NAT) if len(e.args) == 1 else self.E(e.args[0], env)
+            hi, hity = self.E(e.args[-1], env)
+            if loty == NAT and hity == NAT:
+                return "(List.range' %s (%s - %s))" % (lo, hi, lo), tlist(NAT)
+            self.refuse(e, "range over %s, %s" % (loty, hity))
         if isinstance(e, ast.Call) and isinstance(e.func, ast.Name) and e.func.id == "reversed" and len(e.args) == 1 and not e.keywords:
             a, aty = self.iterable(e.args[0], env)
             return "(List.reverse %s)" % a, aty
         text, ty = self.E(e, env)
         if ty == STR:
             return "(pyChars %s)" % text, tlist(STR)
+        if ty == STRSET:
+            self.refuse(e, "iteration over a set (its order is not modelled)")
         return text, ty
 
     def E(self, e, env, expect=None):
@@ -1003,6 +1399,8 @@ class FnTranslator:
                 return "(%d : Int)" % v, INT
             return "(%d : Nat)" % v, NAT
         if v is None:
+            if isinstance(expect, tuple) and expect[0] == "opt" or expect == NONE:
+                return "none", NONE
             return "()", UNIT
         self.refuse(e, "constant of type %s" % type(v).__name__)
 
@@ -1010,6 +1408,8 @@ class FnTranslator:
         n = e.id
         if n in getattr(self, "loop_locals", set()) and n not in env:
             self.refuse(e, "`%s` is first bound inside a loop and read after it" % n)
+        if n in getattr(self, "field_aliases", ()) and "self" in env:
+            return "self", self.m.self_type
         if n in env:
             return lean_ident(n), env[n]
         if n in self.m.consts:
@@ -1017,15 +1417,28 @@ class FnTranslator:
             return ln, ty
         if n in ("True", "False"):
             return n.lower(), BOOL
+        if n in self.m.funcs and not self.m.funcs[n].vararg and not self.m.funcs[n].defaults:
+            info = self.m.funcs[n]
+            names = ["a%d'" % (k + 1) for k in range(len(info.params))]
+            call = "%s %s" % (info.lean_name, " ".join(names))
+            if not info.raises:
+                call = "(.ok (%s))" % call
+            return "(fun %s => %s)" % (" ".join(names), call), tfn([t for _n, t in info.params], info.ret)
         self.refuse(e, "unknown name `%s`" % n)
 
     def E_Attribute(self, e, env, expect):
         if self.self_param and isinstance(e.value, ast.Name) and e.value.id == "self":
             if e.attr == self.m.self_field:
-                return "self", STR
+                if "self" not in env:
+                    self.refuse(e, "the object's field is read before it is assigned")
+                return "self", self.m.self_type
+            if e.attr in self.m.class_consts:
+                return self.m.class_consts[e.attr]
             if e.attr in self.m.properties and e.attr in self.m.methods:
                 return self.call_info(self.m.methods[e.attr], ["self"], e)
             self.refuse(e, "attribute `self.%s`" % e.attr)
+        if self.self_param and isinstance(e.value, ast.Name) and e.value.id == "cls" and e.attr in self.m.class_consts:
+            return self.m.class_consts[e.attr]
         if isinstance(e.value, ast.Name) and e.value.id == "six" and e.attr == "PY2":
             return "false", BOOL      # Python 3 (trusted base: the interpreter under test is CPython 3)
         self.refuse(e, "attribute access")
@@ -1050,6 +1463,12 @@ class FnTranslator:
         if all(t == BOOL for t in tys):
             op = "&&" if isinstance(e.op, ast.And) else "||"
             return "(" + (" %s " % op).join(x for (x, _t) in vals) + ")", BOOL
+        if isinstance(e.op, ast.Or) and len(vals) == 2 and tys[0] == topt(INT) and tys[1] in (NAT, INT):
+            return "(pyOrOptInt %s %s)" % (vals[0][0], self.coerce(vals[1][0], tys[1], INT, e)), INT
+        if isinstance(e.op, ast.Or) and len(vals) == 2 and tys[0] == BYTES and tys[1] in (UNIT, NONE):
+            return "(if (!%s.isEmpty) then some %s else none)" % (self.atom(vals[0][0]), vals[0][0]), topt(BYTES)
+        if isinstance(e.op, ast.Or) and len(vals) == 2 and tys == [topt(STR), STR]:
+            return "(pyOrOpt %s %s)" % (vals[0][0], vals[1][0]), STR
         if isinstance(e.op, ast.Or) and all(t == STR for t in tys):
             out = vals[-1][0]
             for x, _t in reversed(vals[:-1]):
@@ -1061,8 +1480,10 @@ class FnTranslator:
         mark = len(self.binds)
         c = self.truthy(e.test, env)
         m2 = len(self.binds)
-        a, aty = self.E(e.body, env, expect)
-        b, bty = self.E(e.orelse, env, expect)
+        none_a = isinstance(e.body, ast.Constant) and e.body.value is None
+        none_b = isinstance(e.orelse, ast.Constant) and e.orelse.value is None
+        a, aty = ("none", NONE) if none_a else self.E(e.body, env, expect[1] if isinstance(expect, tuple) and expect[0] == "opt" else expect)
+        b, bty = ("none", NONE) if none_b else self.E(e.orelse, env, expect[1] if isinstance(expect, tuple) and expect[0] == "opt" else expect)
         if len(self.binds) > m2:
             raise EffectInCond()
         ty = join_types(aty, bty)
@@ -1097,9 +1518,44 @@ class FnTranslator:
         if isinstance(e.op, ast.Mult):
             a, aty = self.E(e.left, env)
             b, bty = self.E(e.right, env)
+            if aty in (NAT, INT) and bty in (NAT, INT):
+                ty = join_types(aty, bty)
+                return "(%s * %s)" % (self.coerce(a, aty, ty, e), self.coerce(b, bty, ty, e)), ty
             if isinstance(aty, tuple) and aty[0] == "list" and bty in (NAT, INT):
                 return "(pyRepeat %s %s)" % (a, self.coerce(b, bty, INT, e)), aty
             self.refuse(e, "`*` on values of types %s and %s" % (aty, bty))
+        if isinstance(e.op, (ast.BitAnd, ast.BitOr)):
+            a, aty = self.E(e.left, env)
+            b, bty = self.E(e.right, env)
+            if aty == NAT and bty == NAT:
+                sym = "&&&" if isinstance(e.op, ast.BitAnd) else "|||"
+                return "(%s %s %s)" % (a, sym, b), NAT
+            if aty in (NAT, INT) and bty in (NAT, INT) and isinstance(e.op, ast.BitAnd):
+                return "(pyBitAnd %s %s)" % (self.coerce(a, aty, INT, e), self.coerce(b, bty, INT, e)), INT
+            self.refuse(e, "bit operation on values of types %s and %s" % (aty, bty))
+        if isinstance(e.op, ast.Mod) and isinstance(e.left, ast.Constant) and isinstance(e.left.value, str):
+            lit = e.left.value
+            pieces = lit.split("%s")
+            if "%" in "".join(pieces):
+                self.refuse(e, "format string (only `%s` fields)")
+            args = list(e.right.elts) if isinstance(e.right, ast.Tuple) else [e.right]
+            if len(args) != len(pieces) - 1:
+                self.refuse(e, "number of `%s` fields and arguments differ")
+            out = []
+            for k, piece in enumerate(pieces):
+                if piece:
+                    out.append(lean_str(piece))
+                if k < len(args):
+                    a, aty = self.E(args[k], env)
+                    if aty != STR:
+                        self.refuse(args[k], "`%%s` argument of type %s" % (aty,))
+                    out.append(a)
+            if not out:
+                return lean_str(""), STR
+            text = out[0]
+            for piece in out[1:]:
+                text = "(%s ++ %s)" % (text, piece)
+            return text, STR
         self.refuse(e, "binary operator")
 
     def E_Compare(self, e, env, expect):
@@ -1107,6 +1563,11 @@ class FnTranslator:
             self.refuse(e, "chained comparison")
         op = e.ops[0]
         l, r = e.left, e.comparators[0]
+        if isinstance(op, (ast.Is, ast.IsNot)) and isinstance(r, ast.Constant) and r.value is None:
+            a, aty = self.E(l, env)
+            if aty == "match":      # the result of <pattern>.match(s): None or a match object
+                return (a if isinstance(op, ast.IsNot) else "(!%s)" % a), BOOL
+            self.refuse(e, "`is None` test of a %s" % (aty,))
         if isinstance(op, (ast.In, ast.NotIn)):
             a, aty = self.E(l, env)
             neg = isinstance(op, ast.NotIn)
@@ -1117,7 +1578,9 @@ class FnTranslator:
                 text, ty = self.call_info(self.m.methods["__contains__"], ["self", a], e)
                 return ("(!%s)" % text if neg else text), BOOL
             b, bty = self.E(r, env)
-            if aty == STR and bty == STR:
+            if aty == STR and bty == STRSET:
+                text = "(List.contains %s %s)" % (b, a)
+            elif aty == STR and bty == STR:
                 text = "(pyIn %s %s)" % (a, b)
             elif isinstance(bty, tuple) and bty[0] == "list" and bty[1] == aty and aty in (STR, NAT, INT, BOOL):
                 text = "(List.contains %s %s)" % (b, a)
@@ -1157,7 +1620,12 @@ class FnTranslator:
 
     def E_Tuple(self, e, env, expect):
         exp = expect[1] if isinstance(expect, tuple) and expect[0] == "tuple" and len(expect[1]) == len(e.elts) else [None] * len(e.elts)
-        items = [self.E(x, env, ex) for x, ex in zip(e.elts, exp)]
+        items = []
+        for x, ex in zip(e.elts, exp):
+            t, ty = self.E(x, env, ex)
+            if ex is not None and ty != ex and join_types(ty, ex) == ex:
+                t, ty = self.coerce(t, ty, ex, x), ex
+            items.append((t, ty))
         return "(" + ", ".join(x for (x, _t) in items) + ")", ttuple(*[t for (_x, t) in items])
 
     def E_Subscript(self, e, env, expect):
@@ -1183,7 +1651,14 @@ class FnTranslator:
                     return "(List.drop %s %s)" % (i, v), vty
                 if ity == INT:
                     return "(pySliceFrom %s %s)" % (v, i), vty
-            self.refuse(e, "slice form (only `[:i]`, `[i:]`, `[::-1]`)")
+            if s.upper is not None and s.lower is not None:
+                i, ity = self.E(s.lower, env)
+                j, jty = self.E(s.upper, env)
+                if ity == NAT and jty == NAT:
+                    return "(List.drop %s (List.take %s %s))" % (i, j, v), vty
+                if ity in (NAT, INT) and jty in (NAT, INT):
+                    return "(pySlice %s %s %s)" % (v, self.coerce(i, ity, INT, e), self.coerce(j, jty, INT, e)), vty
+            self.refuse(e, "slice form (only `[:i]`, `[i:]`, `[i:j]`, `[::-1]`)")
         # index
         if isinstance(vty, tuple) and vty[0] == "tuple":
             if isinstance(s, ast.Constant) and isinstance(s.value, int) and 0 <= s.value < len(vty[1]):
@@ -1202,6 +1677,147 @@ class FnTranslator:
             self.binds.append((t, "pyIdx %s %s" % (v, i)))
             return t, vty[1]
         self.refuse(e, "index into a %s" % (vty,))
+
+    def comp_head(self, g, env, allow_if=False):
+        """the single `for target in iter` of a comprehension: (iter text, env of the body, lets binding the target
+        [, the pure Bool text of its one `if`])"""
+        if len(g.generators) != 1 or g.generators[0].is_async or (g.generators[0].ifs and not allow_if) \
+                or len(g.generators[0].ifs) > 1:
+            self.refuse(g, "comprehension form (one `for`, at most one `if`)")
+        gen = g.generators[0]
+        it, ity = self.iterable(gen.iter, env)
+        if not (isinstance(ity, tuple) and ity[0] == "list"):
+            self.refuse(g, "comprehension over a %s" % (ity,))
+        env2 = dict(env)
+        lets = []
+        if isinstance(gen.target, ast.Name):
+            names = [(gen.target.id, ity[1], "it'")]
+        elif (isinstance(gen.target, ast.Tuple) and all(isinstance(x, ast.Name) for x in gen.target.elts)
+              and isinstance(ity[1], tuple) and ity[1][0] == "tuple" and len(ity[1][1]) == len(gen.target.elts) == 2):
+            names = [(x.id, t, "it'.%d" % (k + 1)) for k, (x, t) in enumerate(zip(gen.target.elts, ity[1][1]))]
+        else:
+            self.refuse(gen.target, "comprehension target")
+        for v, t, proj in names:
+            if v in env or reserved(v):
+                self.refuse(g, "comprehension variable `%s` shadows a local / a name the generated code uses" % v)
+            env2[v] = t
+            lets.append("let %s : %s := %s" % (lean_ident(v), lean_type(t), proj))
+        if allow_if:
+            keep = None
+            if gen.ifs:
+                mark = len(self.binds)
+                keep = self.truthy(gen.ifs[0], env2)
+                if len(self.binds) > mark:
+                    self.refuse(g, "comprehension filter with an effect")
+            return it, env2, lets, keep
+        return it, env2, lets
+
+    def any_genexp(self, g, env):
+        """`any(<bool> for x in xs)`: stops at the first true element; an exception of an element propagates"""
+        it, env2, lets = self.comp_head(g, env)
+        mark = len(self.binds)
+        body, bty = self.E(g.elt, env2)
+        if bty != BOOL:
+            self.refuse(g, "any() over values of type %s" % (bty,))
+        lctx = LoopCtx("()")
+        step = self.wrap_binds(lctx, mark, "if %s then\n  (.ret true)\nelse\n  (.next ())" % body)
+        fn = "(fun it' st' =>\n%s)" % ind("\n".join(lets + [step]), 4)
+        text = ("(match pyFor (σ := Unit) (ρ := Bool) %s ()\n%s with\n  | .done _ => (Res.ok false)\n  | .ret r' => (.ok r')\n  | .exc e' => (.err e'))"
+                % (it, ind(fn, 4)))
+        t = self.fresh()
+        self.binds.append((t, text))
+        return t, BOOL
+
+    def E_ListComp(self, e, env, expect):
+        it, env2, lets = self.comp_head(e, env)
+        mark = len(self.binds)
+        body, bty = self.E(e.elt, env2)
+        if len(self.binds) == mark:
+            inner = "\n".join(lets + [body])
+            return "(List.map (fun it' =>\n%s) %s)" % (ind(inner, 4), it), tlist(bty)
+        rctx = ResCtx()
+        inner = "\n".join(lets + [self.wrap_binds(rctx, mark, "(.ok %s)" % body)])
+        t = self.fresh()
+        self.binds.append((t, "pyMapM %s (fun it' =>\n%s)" % (it, ind(inner, 4))))
+        return t, tlist(bty)
+
+    def E_Lambda(self, e, env, expect):
+        a = e.args
+        if a.vararg or a.kwarg or a.kwonlyargs or a.defaults or a.posonlyargs:
+            self.refuse(e, "lambda parameters")
+        if not (isinstance(expect, tuple) and expect[0] == "fn" and len(expect[1]) == len(a.args)):
+            self.refuse(e, "lambda where no callable of that arity is expected")
+        env2 = dict(env)
+        for x, t in zip(a.args, expect[1]):
+            if reserved(x.arg):
+                self.refuse(e, "lambda parameter `%s` collides with a name the generated code uses" % x.arg)
+            env2[x.arg] = t
+        mark = len(self.binds)
+        body, bty = self.E(e.body, env2, expect[2])
+        body = self.coerce(body, bty, expect[2], e)
+        text = self.wrap_binds(ResCtx(), mark, "(.ok %s)" % body)
+        return "(fun %s => %s)" % (" ".join(lean_ident(x.arg) for x in a.args), text), expect
+
+    def partial_call(self, e, env, expect):
+        """`partial(f, a, ...)` for a module function `f`: the closure over the remaining parameters"""
+        fname = e.args[0].id
+        info = self.m.funcs.get(fname)
+        if fname in env:
+            # a local bound to one of two module functions (`matcher = match_any if cs else imatch_any`)
+            fty = env[fname]
+            if not (isinstance(fty, tuple) and fty[0] == "fn"):
+                self.refuse(e, "partial() of a %s" % (fty,))
+            given = [self.E(a, env, t) for a, t in zip(e.args[1:], fty[1])]
+            for (x, xt), t in zip(given, fty[1]):
+                if join_types(xt, t) != t:
+                    self.refuse(e, "partial() argument of type %s for %s" % (xt, t))
+            restt = fty[1][len(given):]
+            names = ["a%d'" % (k + 1) for k in range(len(restt))]
+            text = "(fun %s => %s %s)" % (" ".join(names), lean_ident(fname), " ".join([self.atom(x) for x, _t in given] + names))
+            return text, tfn(restt, fty[2])
+        if info is None or info.vararg:
+            self.refuse(e, "partial() of `%s`" % fname)
+        params = info.params
+        if len(e.args) - 1 > len(params):
+            self.refuse(e, "partial() with too many arguments")
+        given = []
+        for a, (n, t) in zip(e.args[1:], params):
+            x, xt = self.E(a, env, expect=t)
+            given.append(self.coerce(x, xt, t, a))
+        restp = params[len(given):]
+        if any(n in info.defaults for n, _t in restp):
+            self.refuse(e, "partial() leaving defaulted parameters open")
+        names = ["a%d'" % (k + 1) for k in range(len(restp))]
+        call = "%s %s" % (info.lean_name, " ".join([self.atom(g) for g in given] + names))
+        if not info.raises:
+            call = "(.ok (%s))" % call
+        return "(fun %s => %s)" % (" ".join(names), call), tfn([t for _n, t in restp], info.ret)
+
+    def set_operand(self, a, env):
+        """the argument of update / difference_update / issuperset: any iterable of strings, as a List Str"""
+        if isinstance(a, ast.GeneratorExp):
+            it, env2, lets, keep = self.comp_head(a, env, allow_if=True)
+            mark = len(self.binds)
+            body, bty = self.E(a.elt, env2)
+            if len(self.binds) > mark or bty != STR:
+                self.refuse(a, "generator of %s values / with an effect" % (bty,))
+            src = it if keep is None else "(List.filter (fun it' =>\n%s) %s)" % (ind("\n".join(lets + [keep]), 4), it)
+            return "(List.map (fun it' =>\n%s) %s)" % (ind("\n".join(lets + [body]), 4), src), tlist(STR)
+        x, xty = self.E(a, env)
+        if xty in (tlist(STR), STRSET):
+            return x, tlist(STR)
+        if xty == STR:
+            return "(pyChars %s)" % x, tlist(STR)
+        self.refuse(a, "set operand of type %s" % (xty,))
+
+    def E_SetComp(self, e, env, expect):
+        it, env2, lets, keep = self.comp_head(e, env, allow_if=True)
+        mark = len(self.binds)
+        body, bty = self.E(e.elt, env2)
+        if len(self.binds) > mark or bty != STR:
+            self.refuse(e, "set comprehension of %s values / with an effect" % (bty,))
+        src = it if keep is None else "(List.filter (fun it' =>\n%s) %s)" % (ind("\n".join(lets + [keep]), 4), it)
+        return "(List.map (fun it' =>\n%s) %s)" % (ind("\n".join(lets + [body]), 4), src), STRSET
 
     def E_GeneratorExp(self, e, env, expect):
         self.refuse(e, "generator expression outside `sum(...)`")
@@ -1228,6 +1844,15 @@ class FnTranslator:
         if isinstance(f, ast.Name):
             n = f.id
             if n in env:
+                fty = env[n]
+                if isinstance(fty, tuple) and fty[0] == "fn" and len(e.args) == len(fty[1]) and not e.keywords:
+                    args = []
+                    for a, t in zip(e.args, fty[1]):
+                        x, xt = self.E(a, env, expect=t)
+                        args.append(self.atom(self.coerce(x, xt, t, a)))
+                    t = self.fresh()
+                    self.binds.append((t, "%s %s" % (lean_ident(n), " ".join(args))))
+                    return t, fty[2]
                 self.refuse(e, "call of the local value `%s`" % n)
             if n in self.m.regex_preds:
                 if len(e.args) != 1 or e.keywords:
@@ -1253,11 +1878,33 @@ class FnTranslator:
                 if aty == STR:
                     return "(pyChars %s)" % a, tlist(STR)
                 self.refuse(e, "list() of a %s" % (aty,))
+            if n == "set" and not e.args and not e.keywords:
+                return "([] : List Str)", STRSET
             if n in ("set", "frozenset") and len(e.args) == 1 and not e.keywords:
                 a, aty = self.E(e.args[0], env)
                 if aty == STR:
                     return "(pySet %s)" % a, CHARSET
+                if aty == tlist(STR) or aty == STRSET:
+                    return a, STRSET        # order and multiplicity of the list are not observable through a set
                 self.refuse(e, "set() of a %s" % (aty,))
+            if n == "sorted" and len(e.args) == 1 and not e.keywords:
+                a, aty = self.E(e.args[0], env)
+                if aty in (STRSET, tlist(STR)):
+                    return "(pySorted %s)" % a, tlist(STR)
+                self.refuse(e, "sorted() of a %s" % (aty,))
+            if n == "cls" and self.self_param == "classmethod" and self.m.ctor is not None and not e.args:
+                return self.call_function(self.m.ctor, e, env)
+            if n == "bool" and len(e.args) == 1 and not e.keywords:
+                a, aty = self.E(e.args[0], env)
+                if aty in ("match", BOOL):
+                    return a, BOOL
+                if aty == STR or (isinstance(aty, tuple) and aty[0] == "list"):
+                    return "(!%s.isEmpty)" % self.atom(a), BOOL
+                self.refuse(e, "bool() of a %s" % (aty,))
+            if n == "any" and len(e.args) == 1 and not e.keywords and isinstance(e.args[0], ast.GeneratorExp):
+                return self.any_genexp(e.args[0], env)
+            if n == "partial" and len(e.args) >= 1 and not e.keywords and isinstance(e.args[0], ast.Name):
+                return self.partial_call(e, env, expect)
             if n == "sum" and len(e.args) == 1 and not e.keywords and isinstance(e.args[0], ast.GeneratorExp):
                 g = e.args[0]
                 if len(g.generators) != 1 or g.generators[0].ifs or g.generators[0].is_async or not isinstance(g.generators[0].target, ast.Name):
@@ -1292,15 +1939,35 @@ class FnTranslator:
                         self.refuse(e, "argument count of self.%s" % meth)
                     return self.call_info(info, args, e)
                 self.refuse(e, "call of `self.%s`" % meth)
+            # re.escape(s), re.compile(text[, re.IGNORECASE])
+            if isinstance(f.value, ast.Name) and f.value.id == "re" and "re" not in env:
+                if meth == "escape" and len(e.args) == 1:
+                    a, aty = self.E(e.args[0], env)
+                    if aty != STR:
+                        self.refuse(e, "re.escape of a %s" % (aty,))
+                    return "(pyReEscape %s)" % a, STR
+                if meth == "compile" and len(e.args) in (1, 2):
+                    a, aty = self.E(e.args[0], env)
+                    if aty != STR:
+                        self.refuse(e, "re.compile of a %s" % (aty,))
+                    ic = "false"
+                    if len(e.args) == 2:
+                        if ast.unparse(e.args[1]) != "re.IGNORECASE":
+                            self.refuse(e.args[1], "re.compile flags (only re.IGNORECASE)")
+                        ic = "true"
+                    t = self.fresh()
+                    self.binds.append((t, "pyReCompile %s %s" % (a, ic)))
+                    return t, REGEX
+                self.refuse(e, "re.%s" % meth)
             # "lit".join / "lit".format
             if isinstance(f.value, ast.Constant) and isinstance(f.value.value, str):
                 lit = f.value.value
                 if meth == "join" and len(e.args) == 1:
-                    if len(lit) != 1:
-                        self.refuse(e, "join with a separator that is not one character")
                     a, aty = self.E(e.args[0], env)
                     if aty != tlist(STR):
                         self.refuse(e, "join of a %s" % (aty,))
+                    if len(lit) != 1:
+                        return "(pyJoinS %s %s)" % (lean_str(lit), a), STR
                     return "(pyJoin %s %s)" % (lean_char(lit), a), STR
                 if meth == "format":
                     pieces = lit.split("{}")
@@ -1321,6 +1988,14 @@ class FnTranslator:
                     for p in out[1:]:
                         text = "(%s ++ %s)" % (text, p)
                     return text, STR
+            if isinstance(f.value, ast.Name) and env.get(f.value.id) == READER and meth == "read" and len(e.args) == 1:
+                n, nty = self.E(e.args[0], env, expect=INT)
+                if nty not in (NAT, INT):
+                    self.refuse(e, "read() with a %s" % (nty,))
+                t = self.fresh()
+                obj = lean_ident(f.value.id)
+                self.binds.append(("(%s, %s)" % (t, obj), "File.Reader.read %s %s" % (obj, self.coerce(n, nty, INT, e)), "let"))
+                return t, BYTES
             v, vty = self.E(f.value, env)
             args = e.args
 
@@ -1346,7 +2021,11 @@ class FnTranslator:
                     fn = {"lstrip": "pyLstrip", "rstrip": "pyRstrip", "strip": "pyStrip"}[meth]
                     return "(%s %s %s)" % (fn, chars_arg(0), v), STR
                 if meth == "split" and len(args) == 1:
+                    if isinstance(args[0], ast.Constant) and isinstance(args[0].value, str) and len(args[0].value) > 1:
+                        return "(pySplitS %s %s)" % (v, lean_str(args[0].value)), tlist(STR)
                     return "(pySplit %s %s)" % (v, char_arg(0)), tlist(STR)
+                if meth == "lower" and len(args) == 0:
+                    return "(pyLower %s)" % v, STR
                 if meth == "rsplit" and len(args) == 2 and isinstance(args[1], ast.Constant) and args[1].value == 1:
                     return "(pyRsplit1 %s %s)" % (v, char_arg(0)), tlist(STR)
                 if meth == "count" and len(args) == 1:
@@ -1362,6 +2041,20 @@ class FnTranslator:
                         self.refuse(e, ".replace with a %s" % (tty,))
                     return "(pyReplace %s %s %s)" % (v, char_arg(0), t), STR
                 self.refuse(e, "str method .%s with %d argument(s)" % (meth, len(args)))
+            if vty == REGEX:
+                if meth == "match" and len(args) == 1:
+                    a, aty = self.E(args[0], env)
+                    if aty != STR:
+                        self.refuse(e, ".match of a %s" % (aty,))
+                    return "(pyReMatch %s %s)" % (v, a), "match"
+                self.refuse(e, "pattern method .%s" % meth)
+            if vty == STRSET:
+                if meth in ("issuperset", "issubset") and len(args) == 1:
+                    a, aty = self.set_operand(args[0], env)
+                    if meth == "issuperset":
+                        return "(List.all %s (fun x' => List.contains %s x'))" % (a, v), BOOL
+                    return "(List.all %s (fun x' => List.contains %s x'))" % (v, a), BOOL
+                self.refuse(e, "set method .%s in an expression" % meth)
             if vty == CHARSET:
                 if meth in ("isdisjoint", "issuperset") and len(args) == 1:
                     a, aty = self.E(args[0], env)
@@ -1420,10 +2113,17 @@ class FnTranslator:
 
 
 def called_names(fdef):
+    """module-level names a function calls or uses as a value (locals of the same name excluded)"""
     out = set()
+    stored = set()
     for n in ast.walk(fdef):
         if isinstance(n, ast.Call) and isinstance(n.func, ast.Name):
             out.add(n.func.id)
+        if isinstance(n, ast.Name) and isinstance(n.ctx, ast.Store):
+            stored.add(n.id)
+    for n in ast.walk(fdef):
+        if isinstance(n, ast.Name) and isinstance(n.ctx, ast.Load) and n.id not in stored:
+            out.add(n.id)
     return out
 
 
@@ -1454,7 +2154,7 @@ def render_def(info, text, namespace_doc=None):
         else:
             params.append("(%s : %s)" % (lean_ident(n), lean_type(t)))
     if info.is_method:
-        params = ["(self : Str)"] + params
+        params = ["(self : %s)" % lean_type(info.self_type)] + params
     rty = lean_type(info.ret)
     if info.raises:
         rty = "Res %s" % (rty if " " not in rty or rty.startswith("(") else "(%s)" % rty)
@@ -1472,11 +2172,29 @@ HAND_MODEL = [
 
 
 class PathModule:
-    """translation of fs/path.py"""
+    """translation of fs/path.py; the base class of the other module translators (puregen.py)"""
 
     SOURCE = "fs/path.py"
     OUT = "PathGen.lean"
     NAMESPACE = "Fs.PathGen"
+    MODNAME = "path"
+    TAG = "PathGen"                 # obligations are named <TAG>.translate(<function>)
+    GENERATOR = "harness/extract/pathgen.py"
+    EQ_MODULE = "FsProofs/PathGenEq.lean"
+    HAND = "FsModel/Path.lean"
+    HAND_MODEL = HAND_MODEL
+    WANTED = None                   # None: every top-level def; else only these (the others must be in OUT_OF_SCOPE)
+    OUT_OF_SCOPE = {}               # top-level name -> why it is not translated (classes, functions over FS objects)
+    LEAN_IMPORTS = ["FsModel.PyStr"]
+    OPENS = "Fs Fs.PyStr"
+    EXTERNS = {}                    # imported name -> (required import statement, FuncInfo)
+
+    def module_statement(self, node, mod):
+        """module-level statements specific to a module: return True when understood"""
+        return False
+
+    def setup_module(self, mod):
+        """module-specific knowledge handed to the function translators"""
 
     def __init__(self, repo):
         self.repo = repo
@@ -1502,8 +2220,16 @@ class PathModule:
         except (OSError, SyntaxError) as ex:
             self.refusals.append(("<module>", "-", "cannot read/parse %s: %s" % (self.SOURCE, ex)))
             return
-        mod = Module("path")
+        mod = Module(self.MODNAME)
+        self.setup_module(mod)
         defs = {}
+        imports = {ast.unparse(n) for n in tree.body if isinstance(n, (ast.Import, ast.ImportFrom))}
+        for name, (stmt, info) in self.EXTERNS.items():
+            if stmt in imports:
+                mod.funcs[name] = info
+            else:
+                self.refusals.append(("<module>", "-", "the import `%s` the translation of %s relies on is gone" % (stmt, self.SOURCE)))
+        self.skipped = []
         for node in tree.body:
             if isinstance(node, ast.Expr) and isinstance(node.value, ast.Constant) and isinstance(node.value.value, str):
                 continue
@@ -1511,11 +2237,19 @@ class PathModule:
                 continue
             if isinstance(node, ast.If) and ast.unparse(node.test) in ("typing.TYPE_CHECKING", "TYPE_CHECKING"):
                 continue
+            if isinstance(node, (ast.FunctionDef, ast.ClassDef)) and self.WANTED is not None and node.name not in self.WANTED:
+                if node.name in self.OUT_OF_SCOPE:
+                    self.skipped.append(node.name)
+                else:
+                    defs[node.name] = node      # a NEW top-level name: translated (or refused) and reported
+                continue
             if isinstance(node, ast.FunctionDef):
                 if node.decorator_list:
                     self.refuse_module(node, "decorated function")
                     continue
                 defs[node.name] = node
+                continue
+            if self.module_statement(node, mod):
                 continue
             if isinstance(node, ast.Assign) and len(node.targets) == 1 and isinstance(node.targets[0], ast.Name):
                 name = node.targets[0].id
@@ -1545,7 +2279,7 @@ class PathModule:
                     self.consts_text.append("def %s : List Char := pySet %s" % (ln, lean_str(v.args[0].value)))
                     continue
             self.refuse_module(node, "module-level statement")
-        deps = {n: {c for c in called_names(d) if c in defs and c != n} for n, d in defs.items()}
+        deps = {n: {c for c in called_names(d) if (c in defs or c in mod.funcs) and c != n} for n, d in defs.items()}
         for n, d in list(defs.items()):
             if called_names_strict(d, n):
                 r = Refuse(n, d, "recursion")
@@ -1553,11 +2287,16 @@ class PathModule:
                 del defs[n]
         try:
             order = toposort(defs, {n: {c for c in deps[n] if c in defs} for n in defs})
+            deps = {n: {c for c in deps[n] if c in defs} | {c for c in deps[n] if c in mod.funcs and c not in defs} for n in deps}
         except Refuse as r:
             self.refusals.append((r.func, r.where, str(r)))
             return
         for n in order:
             d = defs[n]
+            if isinstance(d, ast.ClassDef):
+                r = Refuse(n, d, "a class the translator was not told about")
+                self.refusals.append((n, r.where, str(r)))
+                continue
             missing = [c for c in deps[n] if c not in mod.funcs]
             if missing:
                 self.refusals.append((n, "Call", "function %s: calls %s, which could not be translated" % (n, ", ".join(sorted(missing)))))
@@ -1583,9 +2322,12 @@ class PathModule:
         L = []
         w = L.append
         w("/-")
-        w("  GENERATED by harness/extract/pathgen.py from $VERIF_REPO/%s - do not edit." % self.SOURCE)
-        w("  Syntax-directed translation of every top-level function into Lean over FsModel/PyStr.lean;")
-        w("  FsProofs/PathGenEq.lean proves each definition equal to the hand transcription FsModel/Path.lean.")
+        w("  GENERATED by %s from $VERIF_REPO/%s - do not edit." % (self.GENERATOR, self.SOURCE))
+        w("  Syntax-directed translation of %s into Lean over FsModel/PyStr.lean;"
+          % ("every top-level function" if self.WANTED is None else "the pure functions"))
+        w("  %s proves each definition equal to the hand transcription %s." % (self.EQ_MODULE, self.HAND))
+        if getattr(self, "skipped", None):
+            w("  out of scope (not translated): %s" % ", ".join("%s (%s)" % (n, self.OUT_OF_SCOPE[n]) for n in self.skipped))
         for note in self.module_notes:
             w("  " + note)
         w("  translated (%d): %s" % (len(self.translated), ", ".join(self.translated)))
@@ -1593,21 +2335,22 @@ class PathModule:
         if missing_all:
             w("  in __all__ but NOT translated: %s" % ", ".join(missing_all))
         if self.new_functions():
-            w("  NEW functions (no hand model / no equality theorem; FsProofs.PathGenEq.coverage fails): %s"
-              % ", ".join(self.new_functions()))
+            w("  NEW functions (no hand model / no equality theorem; %s coverage fails): %s"
+              % (self.EQ_MODULE, ", ".join(self.new_functions())))
         if self.vanished_functions():
             w("  functions of the hand model that are no longer in the source: %s" % ", ".join(self.vanished_functions()))
         if self.refusals:
             w("  REFUSED:")
             for fn, where, msg in self.refusals:
-                w("    PathGen.translate(%s): %s" % (fn, msg.replace("-/", "- /")))
+                w("    %s.translate(%s): %s" % (self.TAG, fn, msg.replace("-/", "- /")))
         w("-/")
-        w("import FsModel.PyStr")
+        for imp in self.LEAN_IMPORTS:
+            w("import %s" % imp)
         w("")
         w("set_option linter.unusedVariables false")
         w("")
         w("namespace %s" % self.NAMESPACE)
-        w("open Fs Fs.PyStr")
+        w("open %s" % self.OPENS)
         w("")
         w("/-- top-level functions of %s that were translated, in source order -/" % self.SOURCE)
         w("def translated : List String := [%s]" % ", ".join('"%s"' % n for n in sorted(self.translated)))
@@ -1629,11 +2372,11 @@ class PathModule:
 
     def new_functions(self):
         seen = list(self.translated) + [fn for fn, _w, _m in self.refusals if fn not in ("<module>",)]
-        return sorted({n for n in seen if n not in HAND_MODEL})
+        return sorted({n for n in seen if n not in self.HAND_MODEL})
 
     def vanished_functions(self):
         seen = set(self.translated) | {fn for fn, _w, _m in self.refusals}
-        return [n for n in HAND_MODEL if n not in seen]
+        return [n for n in self.HAND_MODEL if n not in seen]
 
     def status(self):
         return {
@@ -1643,7 +2386,8 @@ class PathModule:
             "translated": self.translated,
             "all": self.all_names,
             "not_translated_in_all": [n for n in self.all_names if n not in self.translated],
-            "refused": [{"obligation": "PathGen.translate(%s)" % fn, "function": fn, "node": where, "message": msg}
+            "out_of_scope": getattr(self, "skipped", []),
+            "refused": [{"obligation": "%s.translate(%s)" % (self.TAG, fn), "function": fn, "node": where, "message": msg}
                         for fn, where, msg in self.refusals],
         }
 
@@ -1672,13 +2416,17 @@ def write_if_changed(path, text):
             fh.write(text)
 
 
-def run(repo_root, out_dir):
-    pm = PathModule(repo_root)
+def run_module(cls, repo_root, out_dir):
+    pm = cls(repo_root)
     pm.build()
     os.makedirs(out_dir, exist_ok=True)
     write_if_changed(os.path.join(out_dir, pm.OUT), pm.emit())
-    write_if_changed(os.path.join(out_dir, "PathGen.status.json"), json.dumps(pm.status(), indent=1, sort_keys=True) + "\n")
+    write_if_changed(os.path.join(out_dir, "%s.status.json" % pm.TAG), json.dumps(pm.status(), indent=1, sort_keys=True) + "\n")
     return pm
+
+
+def run(repo_root, out_dir):
+    return run_module(PathModule, repo_root, out_dir)
 
 
 def generate(repo_root, out_dir):
